@@ -116,12 +116,7 @@ theorem dict_word_any_case (s : Array Cp) (p : Nat) (pre w w' rest : List Cp) (c
     firstMatch (defaultCfg.env s) defaultCfg.rules p = some (.kw, p + w'.length) ∧
       isKeyword defaultCfg w' = isKeyword defaultCfg w := by
   have hcert : wordCert w' = true := by rw [wordCert_case w' w hcase]; exact wordCert_of_dict w hw hn
-  have hascii : ∀ x ∈ w, x < 128 := by
-    have := dict_ascii
-    simp only [List.all_eq_true, decide_eq_true_eq] at this
-    exact this w hw
-  exact ⟨word_token s p pre w' rest c h hp hprev hc hcert,
-    isKeyword_case_invariant w w' hascii (ascii_of_sameFold w' w hcase hascii) hcase⟩
+  exact ⟨word_token s p pre w' rest c h hp hprev hc hcert, isKeyword_case_invariant w w' hcase⟩
 
 /-- … and at a scan position the output of `lex` contains the token `(is_keyword(w), w')` -/
 theorem dict_word_any_case_in_output (s : Array Cp) (p : Nat) (pre w w' rest : List Cp) (c : Cp)
